@@ -210,6 +210,9 @@ func orderAndCopies(e *Env) {
 				}
 				evs[i].at = e.S.Stamp()
 				l.SendLine(evs[i].wire)
+				if c15 && e.S.Choose(6) == 0 {
+					l.SendLine(":u!i@h.sim AWAY")
+				}
 				if e.S.Choose(5) == 0 {
 					simrt.Sleep(time.Duration(e.S.Choose(3)) * time.Millisecond)
 				}
@@ -327,6 +330,43 @@ func orderAndCopies(e *Env) {
 	}
 	for _, v := range verbs {
 		addHandlers(v)
+	}
+	// lines with no parameters and no tags at all (":u!i@h.sim AWAY"), and the
+	// events the client raises itself, have nothing to copy but the Line: every
+	// invocation must still get a Line of its own
+	bareSeen := 0
+	bareHandler := func(kind string) client.HandlerFunc {
+		return func(c *client.Conn, l *client.Line) {
+			if !c15 {
+				return
+			}
+			bareSeen++
+			e.Check()
+			if prev, dup := handedOut[l]; dup {
+				e.Violation("line-altered", "a %s handler for the parameterless event %s was given the very *Line another invocation (handler %d) had been given", kind, l.Cmd, prev.h)
+				return
+			}
+			handedOut[l] = &invRec{h: -1, seq: -1, set: kind}
+			if len(l.Args) != 0 || l.Tags != nil || (l.Nick != "u" && l.Nick != "") {
+				e.Violation("line-altered", "a %s handler for the parameterless event %s received Args=%q Tags=%q Nick=%q (another invocation's edits?)", kind, l.Cmd, l.Args, l.Tags, l.Nick)
+				return
+			}
+			l.Args = append(l.Args, "edited")
+			l.Tags = map[string]string{"edited": "yes"}
+			l.Nick = "mallory"
+			for i := e.S.Choose(3); i > 0; i-- {
+				simrt.Sleep(0)
+			}
+		}
+	}
+	if c15 {
+		for k := g.Range(2, 3); k > 0; k-- {
+			s.c.Handle("AWAY", bareHandler("fg"))
+			s.c.HandleBG("AWAY", bareHandler("bg"))
+			s.c.Handle(client.CONNECTED, bareHandler("fg"))
+			s.c.HandleBG(client.DISCONNECTED, bareHandler("bg"))
+			s.c.Handle(client.REGISTER, bareHandler("fg"))
+		}
 	}
 	for k := g.Range(1, 2); k > 0; k-- {
 		s.c.HandleFunc(client.CONNECTED, func(c *client.Conn, l *client.Line) {
